@@ -231,6 +231,10 @@ def run(ctx):
     # verification redacts again): the redaction rules of C04 are part of this check
     from . import C04 as _C04
     _C04.run(ctx)
+    # "every required server's signature is verified" rests on the per-entity verification of C02 (at least one signature of the entity is actually
+    # checked, none failed): those rules are part of this check
+    from . import C02 as _C02
+    _C02.run(ctx)
     # what is signed / hashed is the canonical JSON form: the canonical-JSON rules of C01 are part of this check
     from . import C01 as _C01
     _C01.run(ctx)
